@@ -240,6 +240,16 @@ def elementary(rng, kind, family):
             scale = 10 ** rng.randint(0, 6)
             digits = rng.randint(0, 3)
             free = [k for k in range(3) if k != piv]
+            # a third of the cards are "computed": every number multiplied
+            # by a factor that makes it seventeen digits long
+            computed = (1.0 + 3.141592653589793e-7) if rng.random() < 0.4 \
+                else None
+            if computed and rng.random() < 0.7:
+                # where a band that is too wide shows: a plane that misses
+                # the origin by a micrometre or so, metres away
+                dval = Fr(rng.choice(['1e-6', '-1e-6', '1e-5', '-1e-5',
+                                      '-1e-4', '3e-6', '-3e-7']))
+                scale = 10 ** rng.randint(2, 4)
 
             def point(u, v):
                 crd = [Fr(0)] * 3
@@ -267,11 +277,22 @@ def elementary(rng, kind, family):
                     float(sum(c * c for c in d13))
                 if not (l2 > 0 and n2 > 1e-18 * l2):
                     continue
+                # a triangle of millimetres seen from kilometres fixes its
+                # plane near the origin (where the probes are) only as well
+                # as double precision allows: keep to cards for which that
+                # is well below the oracle's own tolerance
+                size = max(abs(float(c)) for pnt in pts for c in pnt) + 1.0
+                l12 = math.sqrt(float(sum(c * c for c in d12)))
+                l13 = math.sqrt(float(sum(c * c for c in d13)))
+                if 1.2e-16 * size * size * (l12 + l13) > 2e-6 * math.sqrt(n2):
+                    continue
                 # the deciding quantity (the first of D, C, B, A that is not
                 # zero) must stand clear of what one unit in the last place
                 # of the coordinates can change: between 1/2 and a few dozen
                 # units the rule is a matter of taste, not of arithmetic
                 flat = [c for pnt in pts for c in pnt]
+                if computed:
+                    flat = [Fr(float(c) * computed) for c in flat]
                 clear = True
                 for func in (_p3_d, _p3_c, _p3_b, _p3_a):
                     val = func(flat)
@@ -283,13 +304,19 @@ def elementary(rng, kind, family):
                             moved = list(flat)
                             moved[k] = crd + 1
                             spread += abs(crd) * abs(func(moved) - val)
-                    clear = abs(val) > 60 * spread * Fr(1, 2**52)
+                    # (numbers of at most fifteen digits are taken as they
+                    # are typed: only longer ones need standing clear)
+                    clear = abs(val) > 60 * spread * Fr(1, 2**52) or all(
+                        len(repr(float(c)).split('e')[0].replace('-', '')
+                            .replace('.', '').strip('0')) <= 15 for c in flat)
                     break
                 if clear:
                     break
             else:
                 return elementary(rng, 'p', '3pt-axis-pos')
             rng.shuffle(pts)
+            if computed:
+                return [float(c) * computed for pnt in pts for c in pnt]
             return [float(c) for pnt in pts for c in pnt]
         if family == '3pt-far-small-D':
             # a plane that misses the origin by a tenth of a millimetre to a
@@ -308,6 +335,18 @@ def elementary(rng, kind, family):
                 pnt[oth[1]] = b + db
                 pts.append(pnt)
             rng.shuffle(pts)
+            if rng.random() < 0.5:
+                # the same triangle as the result of a computation: numbers
+                # of seventeen digits, which carry an uncertainty of their
+                # own (a few units in the last place).  The three points
+                # share the small coordinate, so that uncertainty moves D by
+                # 1e-12 at most: D may be as small as 1e-8 and still be
+                # thousands of times what could be noise
+                tiny = rng.choice([1e-8, -1e-8, 1e-7, -1e-7, dval])
+                fac = 1.0 + rng.choice([3.141592653589793e-7,
+                                        2.718281828459045e-8])
+                return [(tiny if v == dval else v) * fac
+                        for pnt in pts for v in pnt]
             return [v for pnt in pts for v in pnt]
         if family == '3pt-D0-flat':
             # a plane through the origin and parallel to one coordinate axis
